@@ -8,7 +8,7 @@ namespace Ts.Drv.StageOps
 application memory (`alias`) or owns its bytes (`fresh`), for the given snapshot kind. -/
 def handle : Handler := fun op j =>
   match op with
-  | "stage" => some do
+  | "stage_alias" => some do
       let isAsync ← getBool j "async"
       let leaves ← getArr j "leaves"
       let mut outs : Array Json := #[]
